@@ -125,6 +125,16 @@ MUTANTS = [
     m("C03-segment-newest-only", "C03", "C03.R4", B, "        chunk = _recv(sock, RECV_SIZE)\n        if not chunk:\n            raise MemcacheUnexpectedCloseError()\n        buf += chunk\n", "        result += buf\n        buf = _recv(sock, RECV_SIZE)\n        if not buf:\n            raise MemcacheUnexpectedCloseError()\n"),
     m("C03-rstrip", "C03", "C03.R5", B, "        chunks[-1] = chunks[-1][:-1]\n    else:\n        # Just remove", "        chunks[-1] = chunks[-1].rstrip(b\"\\r\")\n    else:\n        # Just remove"),
     m("C03-silent-buf-plus", "C03", "", B, "        buf += chunk\n", "        buf = buf + chunk\n", kind="silent"),
+    # the byte arithmetic of the readers (C03.R6: segmentation rows on exact byte strings)
+    m("C03-readline-straddle-keeps-cr", "C03", "C03.R6", B, "            chunks[-1] = chunks[-1][:-1]\n            return buf[1:], b\"\".join(chunks)", "            return buf[1:], b\"\".join(chunks)"),
+    m("C03-readline-straddle-after-find", "C03", "C03.R6", B, "        if last_char == b\"\\r\" and buf[0:1] == b\"\\n\":\n", "        if last_char == b\"\\r\" and buf[0:1] == b\"\\n\" and buf.find(b\"\\r\\n\") == -1:\n"),
+    m("C03-readvalue-straddle-case-off", "C03", "C03.R6", B, "    if rlen == 1:\n", "    if rlen == 0:\n"),
+    m("C03-readvalue-loop-one-more", "C03", "C03.R6", B, "    while rlen - len(buf) > 0:\n", "    while rlen - len(buf) >= 0:\n"),
+    m("C03-readvalue-leftover-keeps-lf", "C03", "C03.R6", B, "    return buf[rlen:], b\"\".join(chunks)", "    return buf[rlen - 1 :], b\"\".join(chunks)"),
+    m("C03-readsegment-leftover-short-token", "C03", "C03.R6", B, "buf[tokens_pos + len(end_tokens) :]", "buf[tokens_pos + 2 :]"),
+    m("C03-readline-no-hangup-test", "C03", "C03.R6", B, "        buf = _recv(sock, RECV_SIZE)\n        if not buf:\n            raise MemcacheUnexpectedCloseError()\n\n\ndef _readvalue", "        buf = _recv(sock, RECV_SIZE)\n\n\ndef _readvalue"),
+    m("C03-silent-readvalue-count-up", "C03", "", B, "    while rlen - len(buf) > 0:\n", "    while len(buf) < rlen:\n", kind="silent"),
+    m("C03-silent-readline-lastchar-always", "C03", "", B, "        if buf:\n            chunks.append(buf)\n            last_char = buf[-1:]\n", "        if buf:\n            chunks.append(buf)\n        last_char = buf[-1:] or last_char\n", kind="silent"),
     # ---------------- C04
     m("C04-len-before-encode", "C04", "C04.R1", B, ("            if not isinstance(data, bytes):\n                try:\n                    data = str(data).encode(self.encoding)", "                + str(len(data)).encode(self.encoding)"), ("            data_len = len(data)\n            if not isinstance(data, bytes):\n                try:\n                    data = str(data).encode(self.encoding)", "                + str(data_len).encode(self.encoding)")),
     m("C04-get-no-prefix", "C04", "C04.R4", B, 'return self._fetch_cmd(b"get", [key], False, key_prefix=self.key_prefix).get(', 'return self._fetch_cmd(b"get", [key], False, key_prefix=b"").get('),
